@@ -150,6 +150,19 @@ func runC04(r *run) {
 			}
 			c.attrs = append(c.attrs, gattr{key: []string{"req", "g", "zz"}[g.intn(3)], isGroup: true, val: gval{kind: "group", items: items}})
 		}
+		if i%16 == 7 {
+			// a severity that is printed while still unregistered ("L#n") and registered afterwards: the level member
+			// follows the registration at once
+			v := 300 + i
+			early := &encCase{format: "j", lvl: v, ts: g.encTime(), msg: "before the registration", tagW: 3, minW: 36, name: c.name}
+			encRun(r, "C04", early)
+			title := fmt.Sprintf("AUDIT-%d", i)
+			if err := slog.RegisterLevel(slog.Level(v), title); err != nil {
+				r.violate(violation{What: "harness: registration refused", Actual: err.Error()})
+			}
+			r.emit(fmt.Sprintf("C17 reg %d %s x x x x x x -1 -1 12 0", v, hxs(title)), "ok")
+			c.lvl = v
+		}
 		if i%8 == 3 {
 			// long lists with keys given more than once: the value given last is the member's value
 			c.attrs = append(c.attrs, g.genWideAttrs(true)...)
@@ -161,6 +174,9 @@ func runC04(r *run) {
 			noise := &encCase{format: []string{"l", "c"}[g.intn(2)], lvl: 4, ts: g.encTime(), msg: g.encMessage(true, true),
 				attrs: g.genAttrs(1+g.intn(4), 2, true, true), tagW: 3, minW: 36, name: "other"}
 			encRun(r, "C04", noise)
+		}
+		if i%10 == 9 {
+			encStringerNoise([]string{"l", "j", "c"}[(i/10)%3])
 		}
 		encRun(r, "C04", c)
 		kinds := map[string]bool{}
